@@ -20,9 +20,6 @@ type API struct {
 	// SignTo / Verify are the package-level functions; ctx and randomized are ignored by the Dilithium modes.
 	SignTo func(sk sign.PrivateKey, msg, ctx []byte, randomized bool, sig []byte) error
 	Verify func(pk sign.PublicKey, msg, ctx, sig []byte) bool
-	// ML-DSA only (nil otherwise): the unexported Sign_internal / Verify_internal wrappers.
-	SignInternal   func(sk sign.PrivateKey, mp []byte, rnd [32]byte) []byte
-	VerifyInternal func(pk sign.PublicKey, mp, sig []byte) bool
 }
 
 func mustBytes(t *testing.T, m interface{ MarshalBinary() ([]byte, error) }) []byte {
@@ -240,23 +237,102 @@ func PublicAPI(t *testing.T, a *API) {
 						map[string]interface{}{"seed": verifmc.FullHex(seed[:]), "msg": verifmc.FullHex(msg), "sig": verifmc.FullHex(buf)})
 				}
 			}
-			// internal wrappers
-			if a.SignInternal != nil {
-				for i, rnd := range [][32]byte{{}, {1, 2, 3}} {
-					mp := []byte(fmt.Sprintf("internal-%d", i))
-					want, _ := ref.SignInternal(p, rsk, mp, rnd[:])
-					got := a.SignInternal(sk, mp, rnd)
-					r.Eval(2)
-					if !bytes.Equal(got, want) {
-						r.Violation(key("unsafeSignInternal", "signature-differs"), kid, fmt.Sprintf("%s unsafeSignInternal differs from Sign_internal (%s)", name, firstDiff(got, want)), nil)
-					} else if !a.VerifyInternal(pk, mp, got) || a.VerifyInternal(pk, append(mp, 0), got) {
-						r.Violation(key("unsafeVerifyInternal", "wrong-verdict"), kid, name+" unsafeVerifyInternal verdict differs from Verify_internal", nil)
-					}
-				}
-			}
 		}
 	})
 	r.RequireCounter("matrix_valid", int64(len(seeds)*len(msgLens)))
 	r.RequireCounter("matrix_invalid", int64(len(seeds)*len(msgLens)))
 	r.NotExhaustive("declared alphabet of seeds, messages and contexts; the hedged path draws rnd from crypto/rand and is judged by the reference verifier only")
+}
+
+// APISignInternal checks the unexported ML-DSA wrapper unsafeSignInternal (Sign_internal on an
+// already formatted message, explicit rnd) against the reference. Own unit, own file in the
+// package under test: renaming the wrapper costs only this unit.
+func APISignInternal(t *testing.T, sch sign.Scheme, signInternal func(sk sign.PrivateKey, mp []byte, rnd [32]byte) []byte) {
+	name := sch.Name()
+	r := verifmc.Start(t, "C04", "api-signinternal-"+name)
+	defer r.Finish()
+	p := ref.ByName(name)
+	if p == nil {
+		t.Fatalf("harness: unknown scheme %q", name)
+	}
+	r.Rule("unsafeSignInternal(M', rnd) = reference Sign_internal for keys SEEDS(32)[0..2] x M' in {\"internal-0\", \"internal-1\", empty} x rnd in {0^32, 01 02 03 0..}; distinct = (key, M', rnd)")
+	seeds := verifmc.SeedsN(32, r.Seed(), 3)
+	for si, seed := range seeds {
+		_, rsk := ref.KeyGen(p, seed)
+		sk, err := sch.UnmarshalBinaryPrivateKey(rsk)
+		if err != nil {
+			t.Fatalf("harness: cannot unmarshal a reference private key: %v", err)
+		}
+		for mi, mp := range [][]byte{[]byte("internal-0"), []byte("internal-1"), {}} {
+			for ri, rnd := range [][32]byte{{}, {1, 2, 3}} {
+				want, _ := ref.SignInternal(p, rsk, mp, rnd[:])
+				got := signInternal(sk, mp, rnd)
+				r.Eval(1)
+				r.Distinct(si, mi, ri)
+				if !bytes.Equal(got, want) {
+					r.Violation("C04|"+name+"|unsafeSignInternal|signature-differs", fmt.Sprintf("signinternal/%d/%d/%d", si, mi, ri),
+						fmt.Sprintf("%s unsafeSignInternal differs from Sign_internal (%s)", name, firstDiff(got, want)), map[string]interface{}{"seed": verifmc.FullHex(seed), "mprime": verifmc.FullHex(mp), "rnd": verifmc.FullHex(rnd[:])})
+				}
+			}
+		}
+	}
+	r.Sample(map[string]interface{}{"entry": "unsafeSignInternal", "mprime": "internal-0", "rnd": "000..00 / 010203 00.."})
+	r.NotExhaustive("declared alphabet of keys, messages and rnd values")
+}
+
+// APIVerifyInternal checks the unexported ML-DSA wrapper unsafeVerifyInternal against the reference verdict.
+func APIVerifyInternal(t *testing.T, sch sign.Scheme, verifyInternal func(pk sign.PublicKey, mp, sig []byte) bool) {
+	name := sch.Name()
+	r := verifmc.Start(t, "C04", "api-verifyinternal-"+name)
+	defer r.Finish()
+	p := ref.ByName(name)
+	if p == nil {
+		t.Fatalf("harness: unknown scheme %q", name)
+	}
+	r.Rule("unsafeVerifyInternal(pk, M', sig) = verdict of the reference Verify_internal for keys SEEDS(32)[0..2], reference signatures over 3 messages, each checked against every message, a flipped c~ bit, a truncated and an extended signature; distinct = (key, signature, variant)")
+	seeds := verifmc.SeedsN(32, r.Seed(), 3)
+	msgs := [][]byte{[]byte("internal-0"), []byte("internal-1"), {}}
+	for si, seed := range seeds {
+		rpk, rsk := ref.KeyGen(p, seed)
+		pk, err := sch.UnmarshalBinaryPublicKey(rpk)
+		if err != nil {
+			t.Fatalf("harness: cannot unmarshal a reference public key: %v", err)
+		}
+		ver := ref.NewVerifier(p, rpk)
+		for mi, mp := range msgs {
+			sig, _ := ref.SignInternal(p, rsk, mp, make([]byte, 32))
+			type variant struct {
+				name string
+				mp   []byte
+				sig  []byte
+			}
+			vs := []variant{{"flip", mp, verifmc.Flip(sig, 3)}, {"truncated", mp, sig[:len(sig)-1]}, {"extended", mp, append(append([]byte{}, sig...), 0)}}
+			for oi, o := range msgs {
+				vs = append(vs, variant{fmt.Sprintf("msg%d", oi), o, sig})
+			}
+			for _, v := range vs {
+				want := ver.VerifyInternal(v.mp, v.sig) == ref.OK
+				var got bool
+				if pn, what := verifmc.Try(func() { got = verifyInternal(pk, v.mp, v.sig) }); pn {
+					r.Violation("C04|"+name+"|unsafeVerifyInternal|panic", fmt.Sprintf("verifyinternal/%d/%d/%s", si, mi, v.name), name+" unsafeVerifyInternal panicked: "+what, nil)
+					continue
+				}
+				r.Eval(1)
+				r.Distinct(si, mi, v.name)
+				if want {
+					r.Count("valid", 1)
+				} else {
+					r.Count("invalid", 1)
+				}
+				if got != want {
+					r.Violation("C04|"+name+"|unsafeVerifyInternal|wrong-verdict", fmt.Sprintf("verifyinternal/%d/%d/%s", si, mi, v.name),
+						fmt.Sprintf("%s unsafeVerifyInternal = %v, Verify_internal = %v (variant %s)", name, got, want, v.name), map[string]interface{}{"seed": verifmc.FullHex(seed)})
+				}
+			}
+		}
+	}
+	r.RequireCounter("valid", 9)
+	r.RequireCounter("invalid", 27)
+	r.Sample(map[string]interface{}{"entry": "unsafeVerifyInternal", "variants": "same message, other messages, c~ bit flip, truncated, extended"})
+	r.NotExhaustive("declared alphabet of keys, messages and alterations")
 }
